@@ -251,6 +251,49 @@ def baseline_html(R, rng, tier):
                                  "observed": text[text.find("<script>alert") - 80:text.find("<script>alert") + 80], "signature": None})
 
 
+def synthetic(R, rng, tier):
+    """Findings as any check - built-in or third-party - may hand them to the formatters (Issue's arguments are mostly
+    optional): without a CWE, without a test id, with hostile text; rendered by every formatter from one manager."""
+    import io
+    import bandit
+    from bandit.core import issue as bissue
+    d = os.path.join(impl.scratch(), "c09syn")
+    os.makedirs(d, exist_ok=True)
+    src = os.path.join(d, "syn.py")
+    open(src, "w").write("zz_a = 1\nzz_b = 2\nzz_c = 3\n")
+    shapes = [dict(cwe=0), dict(cwe=78), dict(cwe=0, test_id=""), dict(cwe=703, text="<b>&\"'</b>"), dict(cwe=0, text="a,b\"c")]
+    for k, shp in enumerate(shapes):
+        mgr = impl.make_manager()
+        i = bissue.Issue(severity=bandit.MEDIUM, cwe=shp["cwe"], confidence=bandit.HIGH, text=shp.get("text", "synthetic finding %d" % k),
+                         test_id=shp.get("test_id", "B9%02d" % k), lineno=2)
+        i.fname, i.test, i.linerange = src, "zz_ext_check", [2]
+        mgr.results = [i]
+        mgr.files_list = [src]
+        mgr.metrics.begin(src)
+        mgr.metrics.count_issues([])
+        mgr.metrics.aggregate()
+        for fmt in ("json", "yaml", "csv", "xml", "sarif", "html", "custom", "txt"):
+            out = os.path.join(d, "rep.out")
+            if os.path.exists(out):
+                os.remove(out)
+            R.case(("synthetic", k, fmt), nontrivial=True, sample={"issue": shp, "format": fmt})
+            R.count("synthetic:" + fmt)
+            inp = {"issue": dict(shp, severity="MEDIUM", confidence="HIGH", line=2), "format": fmt}
+            try:
+                mgr.output_results(3, bandit.LOW, bandit.LOW, open(out, "w", encoding="utf-8"), fmt,
+                                   "{relpath}|{line}|{test_id}|{severity}|{confidence}|{msg}" if fmt == "custom" else None)
+            except Exception as e:  # noqa: BLE001
+                R.violations.append({"what": "format %s: no report for a finding %s (%s: %s)" % (
+                    fmt, "without a CWE" if not shp["cwe"] else "with CWE %s" % shp["cwe"], type(e).__name__, str(e)[:120]),
+                    "input": inp, "observed": type(e).__name__, "signature": None})
+                continue
+            text = open(out, encoding="utf-8", newline="").read()
+            pr = reports.parse(fmt, text)
+            if not pr["wellformed"] or pr["records"] is None or len(pr["records"]) != 1:
+                R.violations.append({"what": "format %s: report of one synthetic finding is not well-formed or has %s records" % (
+                    fmt, None if pr["records"] is None else len(pr["records"])), "input": inp, "observed": text[:300], "signature": None})
+
+
 def run(R, replay=None):
     rng = random.Random(R.seed)
     for f in core.gen():
@@ -267,4 +310,5 @@ def run(R, replay=None):
     unit(R, rng, R.tier)
     system(R, rng, R.tier)
     baseline_html(R, rng, R.tier)
+    synthetic(R, rng, R.tier)
     R.disagreements_checked = R.evaluations
